@@ -17,6 +17,11 @@ def main():
     rng = random.Random(seed)
     for i in range(n):
         p = (storm.timing_program, storm.tick_program, storm.rendezvous_program)[i % 3](rng)
+        # ObsK states the queue discipline for clocks at which a positive delay moves the date.  At clock readings of
+        # 2^53 and beyond, or at infinity, `now + d == now`: the loop then opens a second time step with the same clock
+        # reading, which the kernel monitor does not model (the activity-level monitors judge those programs)
+        if abs(p['start']) >= 2.0 ** 52 or 'Infinity' in json.dumps(p):
+            continue
         puppet.run_program(p['roots'], nroots=len(p['roots']), start=p['start'])
     with open(dst, 'w') as fh:
         json.dump(ktrace.collect(), fh)
